@@ -979,7 +979,7 @@ def check_level_fold(ck, fns, inst):
             out = []
             for truth, br in ((True, v["then"]), (False, v["else"])):
                 for cs, val in value_forms(br):
-                    out.append(([(c, truth)] + cs if False else [(c[0], c[1] == truth)] + cs, val))
+                    out.append(([(c[0], c[1] == truth)] + cs, val))
             return out
         raise Unknown("level value %s" % render(n))
 
@@ -1164,7 +1164,9 @@ def check_level_fold(ck, fns, inst):
             if c.get("k") == "Bin" and c.get("op") in ("<", "<=", ">", ">="):
                 l, r = v2.value(c["lhs"]), v2.value(c["rhs"])
                 lp, rp = (l.get("k") == "Ref" and l.get("d") == p_d), (r.get("k") == "Ref" and r.get("d") == p_d)
-                if lp != rp and (lp or rp) and any(x.get("k") == "Ref" and "lvl" in x.get("n", "") for x in walk(r if lp else l)):
+                other = r if lp else l
+                level_args = [v2.value(c2["a"][4]) for c2 in calls if len(c2.get("a", [])) == 5]
+                if lp != rp and (lp or rp) and any(other is la or render(other) == render(la) for la in level_args):
                     op = c["op"] if rp else {"<": ">", ">": "<", "<=": ">=", ">=": "<="}[c["op"]]
                     guards.append((n, op))       # level op p
     if len(guards) != 1:
